@@ -11,12 +11,24 @@ EX_EDITS = [":s/o/0/<CR>", ":%s/a/A/g<CR>", ":d<CR>", ":2d<CR>", ":1,2d<CR>", ":
 BLOCK_EDITS = ["<c-v>jcX<esc>", "<c-v>jIab<esc>", "<c-v>jlAé<esc>", "<c-v>jjcnew<esc>", "<c-v>jld", "<c-v>jI<esc>", "l<c-v>jjc<esc>", "<c-v>jr#", "<c-v>j$Aend<esc>"]
 
 
+SINGLES = ["ia<left>b<esc>", "Aé<left><left>y<esc>", "ox<up>y<esc>", "rx", "ry", "rZ", "x", "~", "cwQ<esc>", "clé<esc>", "oab<esc>", "Oz<esc>", "ix<esc>", "aé<esc>", "Rqq<esc>", "dw", "J", "ccnew<esc>", "s!<esc>", "p", "yl"]
+
+
 def gen_history(rng):
     n = rng.randint(1, 12)
     keys = []
     for _ in range(n):
         r = rng.random()
-        if r < 0.08:
+        if r < 0.12:
+            # neighbouring changes with nothing, or only motions, between them: each is undone alone
+            keys.append(rng.choice(SINGLES))
+            for _ in range(rng.randint(0, 2)):
+                keys.append(rng.choice(["w", "l", "h", "e", "0", "$", "j", "k", "b"]))
+            keys.append(rng.choice(SINGLES))
+            keys.append("u")
+            if rng.random() < 0.4:
+                keys.append(rng.choice(["u", "<c-r>"]))
+        elif r < 0.18:
             keys.append(rng.choice(BLOCK_EDITS))
             if rng.random() < 0.5:
                 keys += ["u", "<c-r>"]
@@ -82,7 +94,7 @@ def run(chk, binary):
                     ok = False      # the command returned Err half way: its effect on the stacks is not traced
                     break
                 if c["undo_op"]:
-                    ops.append((1 if c["verb"] == "Undo" else 2, None, [], False))
+                    ops.append((1 if c["verb"] == "Undo" else 2, None, [], 0))
                     # ---- oracles on the implementation's own trace ----
                     if c["after"] not in seen:
                         chk.violation("spec:undo/redo produced a text that was never a state of the buffer",
@@ -98,9 +110,9 @@ def run(chk, binary):
                         dist["block_insert_amends"] = dist.get("block_insert_amends", 0) + 1
                         if c["before"] not in seen:
                             seen.append(c["before"])
-                    ops.append((0, pre, txt(c["after"]), bool(c["char_insert"])))
+                    ops.append((0, pre, txt(c["after"]), 2 if c["continues_insert"] else 1 if c["opens_insert"] else 0))
                     last_changed = c["after"] != c["before"]
-                    if c["char_insert"]:
+                    if c["continues_insert"]:
                         dist["with_insert_session"] += 1
                 if c.get("after") is not None and c["after"] not in seen:
                     seen.append(c["after"])
@@ -114,8 +126,30 @@ def run(chk, binary):
         final = steps[-1]
         if final["buf"] != text:
             chk.violation("spec:enough u's do not return the original input", dict(case0, final=final["buf"], undo_left=len(final["undo"])))
-        # u then <c-r>: find adjacent pairs in the history
         keys = hist + ["u"] * 14
+        # u right after a key that is one undoable change: a single stand-alone command (r, x, d.., ~, J, p, :s ..), or one
+        # insert session made of the opening command and typed characters only
+        for i in range(1, len(keys)):
+            if keys[i] != "u" or keys[i - 1] in ("u", "<c-r>", "2u", "3u"):
+                continue
+            cs = [c for c in steps[i - 1]["cmds"] if not c["undo_op"]]
+            changing = [c for c in cs if c.get("after") is not None and c["after"] != c["before"]]
+            if not changing or any(c["before"] != p["after"] for p, c in zip(cs, cs[1:])):
+                continue          # no change, or a block insert copied text between two commands
+            sess = [2 if c["continues_insert"] else 1 if c["opens_insert"] else 0 for c in changing]
+            one_plain = len(changing) == 1 and sess == [0]
+            first, last = cs.index(changing[0]), cs.index(changing[-1])
+            # nothing but typed characters between the first and the last change of the session (a motion or any other
+            # key in between legitimately starts a new undo step)
+            one_session = sess[0] in (1, 2) and all(k == 2 for k in sess[1:]) and all(c["continues_insert"] for c in cs[first + 1:last + 1])
+            if not (one_plain or one_session):
+                continue
+            before_key = steps[i - 2]["buf"] if i >= 2 else text
+            dist["u_after_single_change"] = dist.get("u_after_single_change", 0) + 1
+            if steps[i]["buf"] != before_key:
+                chk.violation("spec:u after one change does not return the text before that change",
+                              dict(case0, index=i, key=keys[i - 1], before_key=before_key, after_key=steps[i - 1]["buf"], after_u=steps[i]["buf"]))
+        # u then <c-r>: find adjacent pairs in the history
         for i in range(len(keys) - 1):
             if keys[i] == "u" and keys[i + 1] == "<c-r>":
                 before_u = steps[i - 1]["buf"] if i > 0 else text
